@@ -20,7 +20,7 @@ ASSUMPTIONS = [
 @st.composite
 def energy_case(draw, tier="quick"):
     hi = 12 if tier == "quick" else 24
-    shape = draw(gen.shape2(2, hi))
+    shape = draw(gen.shape2(2, hi, big=0.03, big_pool=[63, 64, 65, 127, 128, 129, 200]))
     os_ = draw(st.integers(1, 4))
     # period N per axis: multiple of os (so that the DFT output grid can be exactly one period), >= input size
     def period(n):
